@@ -20,6 +20,11 @@ LEVEL = 'exploration'
 BUDGET = {'quick': 45, 'thorough': 420}
 # deterministic sub-checks repeated in a `python -O` child (core.optimized_child)
 OPT_SUBS = ('typeerror', 'table', 'to_utf8')
+# documented call interface the generated calls rely on (vcheck/callstyle.py)
+INTERFACE = [('oslo_utils.encodeutils', None), ('oslo_utils.strutils', ['to_slug'])]
+# pairs of sampled cases are run against each other under every single
+# preemption inside these modules (core.preempt_pair)
+PREEMPT_MODULES = ['oslo_utils.encodeutils', 'oslo_utils.strutils']
 RULE = ('Hypothesis text (full Unicode without surrogates for the UTF '
         'codecs: BMP, astral, combining; for latin-1/ascii/cp1252/shift_jis/'
         'koi8-r/big5 an alphabet of the code points of Latin, Greek, '
